@@ -194,6 +194,33 @@ def run(ctx, c19=False):
                 steps.append({'op': 'call', 'k': 1, 'j': j, 'mode': 'obj', 'fair': 'none', 'r': r + 1})
             hists.append({'ks': [K], 'fs': fs, 'steps': steps, 'family': 'short history, restricted formulas with recurring subformulas',
                           'pres': [{'naming': rnd.choice(['int', 'str', 'obj']), 'shuf': rnd.randrange(1 << 30)}], 'seed': rnd.randrange(1 << 30)})
+    # short histories around boundary answers: a query whose answer is the whole state set (or the empty set) under every
+    # operator shape, an edit of the returned set (size-preserving or not), the same query again, then other queries
+    for _ in range(500 if q else 8000):
+        K = gen.rand_kripke(rnd, rnd.choice([2, 3, 4]))
+        taut = rnd.choice([TR, ('or', P, ('not', P)), ('not', FA), ('imp', P, P)])
+        if rnd.random() < 0.3:       # an atom that happens to hold everywhere in this structure
+            K = dict(K, L=[sorted(set(l) | {'p'}) for l in K['L']])
+            taut = P
+        shapes = [lambda z: ('E', ('G', z)), lambda z: ('A', ('G', z)), lambda z: ('E', ('X', z)), lambda z: ('E', ('F', z)), lambda z: z,
+                  lambda z: ('E', ('U', z, z)), lambda z: ('not', ('not', z)), lambda z: ('A', ('F', z)), lambda z: ('E', ('R', z, z)),
+                  lambda z: ('A', ('X', z)), lambda z: ('and', z, z), lambda z: ('or', z, Q), lambda z: ('not', z), lambda z: ('E', ('G', ('not', z)))]
+        fs = []
+        for _i in range(3):
+            lg = rnd.choice(['CTL', 'CTL', 'CTLS', 'LTL'])
+            f = rnd.choice(shapes)(taut)
+            if lg == 'LTL':
+                f = ('A', rnd.choice([('G', taut), ('F', taut), taut, ('X', taut), ('U', taut, taut), ('not', taut)]))
+            fs.append({'logic': lg, 'f': f})
+        steps, r = [], 1
+        for j in (1, 2, 3):
+            steps.append({'op': 'call', 'k': 1, 'j': j, 'mode': rnd.choice(['obj', 'obj', 'text']), 'fair': 'none', 'r': r})
+            steps.append({'op': 'mutate', 'r': r, 'kind': rnd.choice(['swap', 'swap', 'add', 'clear', 'discard'])})
+            steps.append({'op': 'call', 'k': 1, 'j': j, 'mode': 'obj', 'fair': 'none', 'r': r + 1})
+            steps.append({'op': 'call', 'k': 1, 'j': rnd.choice([1, 2, 3]), 'mode': 'obj', 'fair': 'none', 'r': r + 2})
+            r += 3
+        pres = [{'naming': rnd.choice(['int', 'str', 'tuple', 'obj'] if not c19 else ['str', 'tuple', 'mixed', 'neg', 'obj', 'objmix']), 'shuf': rnd.randrange(1 << 30)}]
+        hists.append({'ks': [K], 'fs': fs, 'steps': steps, 'family': 'short history around boundary answers', 'pres': pres, 'seed': rnd.randrange(1 << 30)})
     events = finish(ctx, hists)
     for h in hists:
         calls = [(s['k'], s['j'], s['fair']) for s in h['steps'] if s['op'] == 'call']
